@@ -32,7 +32,7 @@ def append(val: str, arg: object) -> str:
     If _arg_ is not a string, it will be converted to one before concatenation.
     """
     if not isinstance(arg, str):
-        arg = str(arg)
+        arg = to_liquid_string(arg)
     return val + arg
 
 
